@@ -3,6 +3,8 @@ package c02
 import (
 	"errors"
 	"fmt"
+	"reflect"
+	"sort"
 	"strings"
 
 	"gorm.io/gorm"
@@ -30,8 +32,73 @@ type keyTable struct {
 	many func(rows []pred.Row, ks []int) interface{}
 	// marked: a record with Mark = markVal (and the key of row k unless k < 0), as value or pointer
 	marked func(rows []pred.Row, k int, ptr bool) interface{}
-	uid    func(v interface{}) int64
-	lit    func(rows []pred.Row, k int) string
+	uidField string
+	lit      func(rows []pred.Row, k int) string
+}
+
+// Forms of a model / finisher value: "&" pointer to the record (or slice), "&&" pointer to such a pointer,
+// "val" the record (or slice) itself, "&[]*" / "&&[]*" / "[]*" a slice of pointers to records.
+func ptrTo(v interface{}) interface{} {
+	p := reflect.New(reflect.TypeOf(v))
+	p.Elem().Set(reflect.ValueOf(v))
+	return p.Interface()
+}
+
+func valueOf(v interface{}) interface{} { return reflect.ValueOf(v).Elem().Interface() }
+
+// ptrSlice: *[]T -> *[]*T
+func ptrSlice(v interface{}) interface{} {
+	sv := reflect.ValueOf(v).Elem()
+	out := reflect.MakeSlice(reflect.SliceOf(reflect.PtrTo(sv.Type().Elem())), sv.Len(), sv.Len())
+	for i := 0; i < sv.Len(); i++ {
+		e := reflect.New(sv.Type().Elem())
+		e.Elem().Set(sv.Index(i))
+		out.Index(i).Set(e)
+	}
+	p := reflect.New(out.Type())
+	p.Elem().Set(out)
+	return p.Interface()
+}
+
+func shaped(v interface{}, form string) interface{} {
+	switch form {
+	case "&&":
+		return ptrTo(v)
+	case "val":
+		return valueOf(v)
+	case "&[]*":
+		return ptrSlice(v)
+	case "&&[]*":
+		return ptrTo(ptrSlice(v))
+	case "[]*":
+		return valueOf(ptrSlice(v))
+	}
+	return v
+}
+
+// shapedLit: how the value reads in a program (&(&X) stands for p := &X; &p)
+func shapedLit(lit, form string) string {
+	switch form {
+	case "&&":
+		return "&(&" + lit + ")"
+	case "val":
+		return lit
+	case "&[]*":
+		return "&[]*" + lit
+	case "&&[]*":
+		return "&(&[]*" + lit + ")"
+	case "[]*":
+		return "[]*" + lit
+	}
+	return "&" + lit
+}
+
+func recField(v interface{}, name string) int64 {
+	rv := reflect.ValueOf(v)
+	for rv.Kind() == reflect.Ptr {
+		rv = rv.Elem()
+	}
+	return rv.FieldByName(name).Int()
 }
 
 func rowID(rows []pred.Row, k int) int64 {
@@ -73,7 +140,7 @@ var keyTables = []keyTable{
 			}
 			return v
 		},
-		uid: func(v interface{}) int64 { return v.(*pred.Row).ID },
+		uidField: "ID",
 		lit: func(rows []pred.Row, k int) string { return fmt.Sprintf("Row{ID: %d}", rowID(rows, k)) },
 	},
 	{
@@ -93,7 +160,7 @@ var keyTables = []keyTable{
 			}
 			return v
 		},
-		uid: func(v interface{}) int64 { return v.(*SRow).ID },
+		uidField: "ID",
 		lit: func(rows []pred.Row, k int) string { return fmt.Sprintf("SRow{ID: %d}", rowID(rows, k)) },
 	},
 	{
@@ -117,7 +184,7 @@ var keyTables = []keyTable{
 			}
 			return v
 		},
-		uid: func(v interface{}) int64 { return v.(*CRow).UID },
+		uidField: "UID",
 		lit: func(rows []pred.Row, k int) string {
 			id, loc := cKey(rows, k)
 			return fmt.Sprintf("CRow{ID: %d, Loc: %q}", id, loc)
